@@ -86,6 +86,23 @@ def jsNames : List Node → R Unit
     let _ ← n.asStr
     jsNames r
 
+/-- the scan of `_is_parenthesized` (ast/structures.py, F160): `d` = depth, `q` = the quote character of the string literal the
+    scan is inside of (a backslash skips the next character there) -/
+def parenScan : Str → Int → Option Char → Bool
+  | [], _, _ => false
+  | c :: r, d, some q =>
+    if c = '\\' then (match r with | _ :: r' => parenScan r' d (some q) | [] => false)
+    else if c = q then parenScan r d none
+    else parenScan r d (some q)
+  | c :: r, d, none =>
+    if c = '"' ∨ c = '\'' then parenScan r d (some c)
+    else if c = '(' then parenScan r (d + 1) none
+    else if c = ')' then (if d - 1 = 0 then r.isEmpty else parenScan r (d - 1) none)
+    else parenScan r d none
+
+/-- `_is_parenthesized(text)`: the text starts with `(` and THAT parenthesis closes at the very last character -/
+def isParenthesized (t : Str) : Bool := startsWith t (S "(") && parenScan t 0 none
+
 mutual
   /-- `node.generate_js(ind, fm)`; with `tgt` the node is the target of a `put … into/after/before`
       (`SpAssignOperation.target_js`): the field at the bottom of the chunk chain is addressed through `.text` -/
@@ -198,7 +215,7 @@ mutual
     | .repeat_ _ _ cond stmts type start varname sign loopVar, ind => do
       let ct ← js fm false cond 0
       let cs ← ct.asStr
-      let cs := if startsWith cs (S "(") then cs else S "(" ++ cs ++ S ")"
+      let cs := if isParenthesized cs then cs else S "(" ++ cs ++ S ")"
       -- var_js = self.variable.generate_js(0, fm) if self.variable is not None else self.varname
       let varJs ← if loopVar.isNone then pure varname else js fm false loopVar 0
       let head ←
@@ -215,7 +232,7 @@ mutual
     | .ifThen _ cond ifs elses, ind => do
       let ct ← js fm false cond 0
       let cs ← ct.asStr
-      let cs := if startsWith cs (S "(") then cs else S "(" ++ cs ++ S ")"
+      let cs := if isParenthesized cs then cs else S "(" ++ cs ++ S ")"
       let a ← jsStmts fm ifs (ind + 1)
       let b ← if elses.isEmpty then pure [] else do
         let e ← jsStmts fm elses (ind + 1)
